@@ -147,7 +147,7 @@ func checkC07(w *World, r *Report) {
 
 func c07LexerLoops(w *World, r *Report) {
 	p := w.Pkg("parse")
-	eofC, _ := p.Types.Scope().Lookup("eof").(*types.Const)
+	eofC, _ := scopeLookup(p.Types.Scope(), "eof").(*types.Const)
 	if eofC == nil {
 		panic(undecided{"parse.eof"})
 	}
@@ -387,7 +387,7 @@ func c07PanicTyping(w *World, r *Report) {
 			usesName = true
 		}
 		if ce, ok := x.(*ast.CallExpr); ok {
-			if c := calleeOf(p, ce); c != nil && c.Name() == "lineNumber" {
+			if c := calleeOf(p, ce); c != nil && nm(c) == "lineNumber" {
 				usesLine = true
 			}
 		}
